@@ -47,10 +47,13 @@ def milps(draw, tier="quick"):
         A = [[a1, a2] + [draw(st.integers(0, 2)) for _ in range(extra)]]
         b = [bb]
         U = draw(st.integers(2, 4))
-        explicit_one = False
         for j in range(n):
             A.append([1 if k == j else 0 for k in range(n)])
             b.append(U)
+        # redundant unit rows on x1 (its optimum is 0 anyway), possibly repeated: only x1 is "binary"
+        for _ in range(draw(st.sampled_from([0, 0, 1, 2, 3]))):
+            A.append([1] + [0] * (n - 1))
+            b.append(1)
         for _ in range(draw(st.integers(0, 2))):  # slack rows that do not cut anything
             A.append([draw(st.integers(0, 2)) for _ in range(n)])
             b.append(2 * U * n + draw(st.integers(0, 3)))
@@ -98,7 +101,7 @@ def milps(draw, tier="quick"):
         "seed": draw(st.integers(0, 99)),
         "solution_limit": draw(st.sampled_from([1, 1, 1, 2, 3, 10])),
         "max_nodes": draw(st.sampled_from([None] * 7 + [1, 2, 5])),
-        "warm": draw(st.sampled_from(["none", "none", "none", "optimal", "feasible", "infeasible", "fractional", "wrong-length"])),
+        "warm": draw(st.sampled_from(["none", "none", "none", "optimal", "feasible", "infeasible", "fractional", "wrong-length", "feasible-but-negative", "feasible-but-fractional", "feasible-but-row-violated"])),
         "warm_pick": draw(st.integers(0, 10**6)),
     }
 
@@ -186,6 +189,22 @@ def warm_start_point(desc, ora):
         return [0.5] * n
     if ora["status"] != "optimal":
         return None
+    if kind.startswith("feasible-but-"):
+        # an almost-feasible point that breaks exactly one clause of feasibility (sign, integrality, a row)
+        base = [float(v) for v in (ora["feasible"][pick % len(ora["feasible"])][1] if ora["feasible"] else ora["best"])]
+        j = (pick // 7) % n
+        if kind == "feasible-but-negative":
+            cont = [k for k in range(n) if k not in desc["integers"]]
+            j = cont[(pick // 7) % len(cont)] if cont else j
+            base[j] = -1.0
+        elif kind == "feasible-but-fractional":
+            ints = sorted(desc["integers"])
+            if not ints:
+                return base
+            base[ints[(pick // 7) % len(ints)]] += 0.5
+        else:
+            base[j] += 50.0
+        return base
     if kind == "optimal":
         return [float(v) for v in ora["best"]]
     feas = sorted(ora["feasible"], key=lambda t: (t[0], [str(v) for v in t[1]]))
